@@ -474,3 +474,24 @@ Proof.
     destruct child; try discriminate. destruct p as [|e q]; [cbn in Hl; inversion Hl; subst; discriminate|].
     destruct e; cbn [leaf_at] in Hl; discriminate.
 Qed.
+
+(** ** crossover probability 1: with two or more parents a sub is assembled member by member (the
+    offspring is never a whole copy chosen at the sub's level) *)
+Lemma cp1_sub_memberwise pr ms x0 x1 rest child :
+  cross_check fone pr (SSub ms) (x0 :: x1 :: rest) child = true ->
+  exists cm, child = VSub cm /\
+    forall k cs, In (k, cs) ms ->
+      exists cvs cv,
+        all_some (map (fun v => match v with VSub m => slookup k m | _ => None end) (x0 :: x1 :: rest)) = Some cvs /\
+        slookup k cm = Some cv /\ cross_check fone pr cs cvs cv = true.
+Proof.
+  cbn [cross_check is_leaf]. rewrite can_false_one, can_true_one. cbn [andb orb].
+  destruct child; try discriminate. intros H. exists m. split; [reflexivity|].
+  apply andb_prop in H. destruct H as [_ Hgo].
+  set (PS := x0 :: x1 :: rest) in *. clearbody PS.
+  revert Hgo. induction ms as [|[k0 cs0] r IHr]; intros Hgo k cs Hin; [destruct Hin|].
+  destruct (all_some _) as [cvs|] eqn:Ea; [|discriminate]. destruct (slookup k0 m) as [cv|] eqn:Ec; [|discriminate].
+  apply andb_prop in Hgo. destruct Hgo as [Hc Hgo]. destruct Hin as [Heq|Hin].
+  - inversion Heq; subst. exists cvs, cv. auto.
+  - apply IHr; assumption.
+Qed.
